@@ -107,6 +107,15 @@ Theorem C02_steps_keep_caches_coherent : forall wc w o, (match o with OCorrupt _
   wcoherent wc w -> wcoherent wc (fst (fst (step w o))).
 Proof. exact step_keeps_coherence. Qed.
 
+(** ... and with a concrete cache discipline no coherence hypothesis is left: the top node of a tree is
+    put into the cache after a LoadMast and after a MakeRoot (what loadPersisted and the commit step of
+    flush do), under (store, node format, key kind, name), and after every step anything may be evicted
+    ([ev]: any function of the step index and the name - a large cache, a tiny one, none).  From the empty
+    world and an empty cache, every history is the cache-less history. *)
+Theorem C02_histories_with_a_filling_evicting_cache : forall ops ev,
+  conds empty_world ([], []) ops -> run_d ev 0 (fun _ _ _ => cempty) empty_world ops = run empty_world ops.
+Proof. exact history_with_cache_from_scratch. Qed.
+
 Print Assumptions C02_frame.
 Print Assumptions C02_captured_stable.
 Print Assumptions C02_store_monotone.
@@ -117,3 +126,4 @@ Print Assumptions C02_cache_transparent.
 Print Assumptions C02_histories_through_caches.
 Print Assumptions C02_histories_through_a_fixed_cache.
 Print Assumptions C02_steps_keep_caches_coherent.
+Print Assumptions C02_histories_with_a_filling_evicting_cache.
